@@ -19,6 +19,12 @@ dotted, aliased, permuted or incomplete; compiled qlassf functions) and every ex
 (c) a failing case is attributed to an open finding only if its precise trigger holds, the
     failing sub-check is the one the finding explains, and the quirk-model reproduces the
     code's output exactly.
+(d) multi-step sequences on ONE circuit object (cases with "steps"): export, change the circuit
+    through every public mutator (append, gate methods, +=, append_circuit, add_qubit, names,
+    barrier, rename; +, repeat, copy results), export again.  The export after the last step goes
+    through (a)-(c) against the harness' own account of what the steps build; every export along
+    the way must read like the export of a fresh circuit with the same gates and names; objects
+    exported earlier must still read as they did; circuits left behind must be unchanged.
 """
 from __future__ import annotations
 
@@ -120,6 +126,8 @@ def fvals_of(gates):
 def build_real(case):
     from qlasskit.qcircuit import QCircuit
 
+    if case.get("steps"):
+        return run_steps(case).qc
     if case.get("src"):
         return compile_src(case)
     qc = QCircuit(case["n"], name=case["name"])
@@ -846,12 +854,19 @@ def strip_obs(obs):
 
 def observe(ctx, res, case, bucket, lean_parse=True):
     """one circuit x all exporters x both modes on the real code; returns the record to judge"""
+    seq = None
     try:
-        qc = build_real(case)
+        if case.get("steps"):
+            # one circuit object taken through exports and mutators; what is judged below is the
+            # export of THAT object after the last step, against the harness' own account of it
+            seq = run_steps(case)
+            qc, desc = seq.qc, seq.desc
+        else:
+            qc = build_real(case)
+            desc = describe(qc)
     except Exception as e:  # noqa
         res.notes.append(f"could not build case {case.get('label')}: {type(e).__name__}: {e}")
         return None
-    desc = describe(qc)
     small = desc["n"] <= 6
     quirks = active_quirks(ctx)
     wf = wellformed(desc["gates"])
@@ -871,7 +886,9 @@ def observe(ctx, res, case, bucket, lean_parse=True):
             k += 1
     dom_req = dict(op="c13.domain", name=desc["name"], n=desc["n"], qmap=desc["qmap"], gates=desc["gates"],
                    fvals=fvals_of(desc["gates"]), quirks=quirks)
-    return dict(case=case, bucket=bucket, desc=desc, reqs=reqs + parse_reqs + [dom_req], nreq=len(reqs), parse_idx=parse_idx, observations=observations)
+    if seq is not None:
+        finish_seq(seq)
+    return dict(case=case, bucket=bucket, desc=desc, reqs=reqs + parse_reqs + [dom_req], nreq=len(reqs), parse_idx=parse_idx, observations=observations, seq=seq)
 
 
 def judge(ctx, res, rec, replies):
@@ -905,6 +922,9 @@ def judge(ctx, res, rec, replies):
                     res.known(w)
         elif diff is not None:
             res.disagree(sub, diff, code=strip_obs(obs), model=rep)
+    # the sequence-level checks (after the verdicts of the independent oracle on the last export)
+    if rec.get("seq") is not None:
+        judge_seq(ctx, res, rec)
     # the Lean reader on the real text vs the Python reader
     if replies is not None:
         for j, oi in enumerate(parse_idx):
@@ -972,6 +992,449 @@ def check_circuits(ctx, res, cases, chunk=150):
 
 def check_circuit(ctx, res, case, bucket):
     check_circuits(ctx, res, [(case, bucket)])
+
+
+# ------------------------------------------------------------------ multi-step sequences on one circuit object
+#
+# A case with "steps" takes ONE real QCircuit through exports and public mutators:
+#   export (one framework / mode, or all) -> mutate -> ... -> export again (the ordinary pipeline
+#   above: every exporter, both modes, judged by the independent readers / simulator).
+# The harness keeps its own account (`St`) of what the circuit is after every step - name, number
+# of qubits, ordered name map, gate list - from the documented meaning of the mutators alone; it
+# never reads it back from the object.  Checked:
+#   * after the last step the object's name / qubits / map / gates are the account's ("state");
+#   * the export after the last step denotes the ACCOUNT's gates (ordinary pipeline, desc = account);
+#   * every export taken along the way and every export after the last step reads exactly like the
+#     export of a FRESH circuit built with the account's gates and names ("stale");
+#   * an object exported earlier still reads as it did when it was exported ("first-changed");
+#   * circuits left behind by `+`, repeat, copy are what they were and export like fresh ones.
+
+F_LIVE = "C13-cirq-export-live-view"
+
+ALL_EXPORTS = [(fw, ver, mode) for fw, ver in FRAMEWORKS for mode in MODES]
+
+
+class St:
+    """the harness' own account of a circuit"""
+
+    def __init__(self, name, n, qmap, gates):
+        self.name, self.n = name, n
+        self.qmap = [[k, v] for k, v in qmap]
+        self.gates = [canon_gate(d) for d in gates]
+
+    def copy(self):
+        return St(self.name, self.n, self.qmap, self.gates)
+
+    def desc(self):
+        return dict(name=self.name, n=self.n, qmap=[[k, v] for k, v in self.qmap], gates=[canon_gate(d) for d in self.gates])
+
+    def setname(self, key, qubit):
+        for kv in self.qmap:
+            if kv[0] == key:
+                kv[1] = qubit
+                return
+        self.qmap.append([key, qubit])
+
+    def delname(self, key):
+        self.qmap = [kv for kv in self.qmap if kv[0] != key]
+
+    def wire(self, a):
+        """a wire argument of a gate method: an index, a name, or a Symbol (by its name)"""
+        if isinstance(a, int):
+            return a
+        key = a["sym"] if isinstance(a, dict) else a
+        for k, v in self.qmap:
+            if k == key:
+                return v
+        raise KeyError(key)
+
+
+def canon_gate(d):
+    return dict(c=d["c"], n=d.get("n", 0), g=d.get("g", ""), w=list(d["w"]), p=d.get("p"))
+
+
+def real_arg(a):
+    from sympy import Symbol
+
+    return Symbol(a["sym"]) if isinstance(a, dict) else a
+
+
+def plain_qc(desc):
+    """a fresh real circuit with exactly these gates and names"""
+    from qlasskit.qcircuit import QCircuit
+
+    qc = QCircuit(desc["n"], name=desc.get("name", "qc"))
+    qc.qubit_map = {k: v for k, v in desc.get("qmap", default_map(desc["n"]))}
+    for d in desc["gates"]:
+        qc.append(C.make_gate(d), list(d["w"]), pval(d.get("p")))
+    return qc
+
+
+def qft_gates(ws, inverse):
+    """the gate list QCircuit.qft / iqft stand for (H, controlled phases 2pi/2^k, final swaps)"""
+    n, out = len(ws), []
+    if not inverse:
+        for i in range(n):
+            out.append(mk("H", [ws[i]]))
+            for j in range(i + 1, n):
+                out.append(mk("CP", [ws[j], ws[i]], 2 * math.pi / (2 ** (j - i + 1))))
+        for i in range(n // 2):
+            out.append(mk("Swap", [ws[i], ws[n - i - 1]]))
+    else:
+        for i in range(n // 2):
+            out.append(mk("Swap", [ws[i], ws[n - i - 1]]))
+        for i in reversed(range(n)):
+            for j in reversed(range(i + 1, n)):
+                out.append(mk("CP", [ws[j], ws[i]], -2 * math.pi / (2 ** (j - i + 1))))
+            out.append(mk("H", [ws[i]]))
+    return out
+
+
+def method_gate(st, m, args):
+    """the gate a convenience method appends, from the account's name map"""
+    r = st.wire
+    if m in ("h", "z", "x", "y", "t", "s"):
+        return mk(m.upper(), [r(args[0])])
+    if m in ("cx", "cz"):
+        return mk(m.upper(), [r(args[0]), r(args[1])])
+    if m == "swap":
+        return mk("Swap", [r(args[0]), r(args[1])])
+    if m == "ccx":
+        return mk("CCX", [r(a) for a in args])
+    if m == "cp":
+        return mk("CP", [r(args[1]), r(args[2])], args[0])
+    if m == "mcx":
+        return mk(f"MCX{len(args[0])}", [r(a) for a in args[0]] + [r(args[1])])
+    if m == "mctrl":
+        return mk(f"MCtrl{args[0]}{len(args[1])}", [r(a) for a in args[1]] + [r(args[2])], args[3] if len(args) > 3 else None)
+    raise ValueError(m)
+
+
+def remap(gates, qubits):
+    return [canon_gate(dict(d, w=[qubits[w] for w in d["w"]])) for d in gates]
+
+
+def model_step(st, step):
+    """own account of one mutator: returns (account after the step, True when the step yields a
+    NEW circuit object and leaves the old one as it was)"""
+    op = step["op"]
+    if op in ("append", "iadd_gate"):
+        st.gates.append(canon_gate(step["g"]))
+    elif op == "method":
+        st.gates.append(canon_gate(method_gate(st, step["m"], step["args"])))
+    elif op in ("qft", "iqft"):
+        st.gates.extend(canon_gate(d) for d in qft_gates([st.wire(a) for a in step["wl"]], op == "iqft"))
+    elif op == "iadd":
+        st.gates.extend(remap(step["other"]["gates"], list(range(step["other"]["n"]))))
+    elif op == "append_circuit":
+        st.gates.extend(remap(step["other"]["gates"], step["qubits"]))
+    elif op == "add_qubit":
+        nm = step.get("name")
+        nm = nm["sym"] if isinstance(nm, dict) else nm
+        st.setname(nm if nm is not None else f"q{st.n}", st.n)
+        st.n += 1
+    elif op == "setitem":
+        k = step["key"]
+        st.setname(k["sym"] if isinstance(k, dict) else k, step["qubit"])
+    elif op == "delitem":
+        k = step["key"]
+        st.delname(k["sym"] if isinstance(k, dict) else k)
+    elif op == "barrier":
+        st.gates.append(canon_gate(mk("Barrier", [], step.get("label"))))
+    elif op == "rename":
+        st.name = step["name"]
+    elif op == "add":
+        new = st.copy()
+        new.gates.extend(remap(step["other"]["gates"], list(range(step["other"]["n"]))))
+        return new, True
+    elif op == "repeat":
+        new = st.copy()
+        new.gates = [canon_gate(d) for _ in range(max(step["k"], 0)) for d in st.gates]
+        return new, True
+    elif op == "copy":
+        if step.get("vanilla"):
+            return St("qc", st.n, default_map(st.n), st.gates), True
+        return st.copy(), True
+    elif op == "deepcopy":
+        return st.copy(), True
+    else:
+        raise ValueError(op)
+    return st, False
+
+
+def real_step(qc, step):
+    """the same mutator on the real circuit; returns the circuit the sequence goes on with"""
+    import copy as _copy
+
+    op = step["op"]
+    if op == "append":
+        g = step["g"]
+        qc.append(C.make_gate(g), list(g["w"]), pval(g.get("p")))
+    elif op == "iadd_gate":
+        g = step["g"]
+        qc += (C.make_gate(g), list(g["w"]), pval(g.get("p")))
+    elif op == "method":
+        m, a = step["m"], step["args"]
+        if m == "mcx":
+            qc.mcx([real_arg(x) for x in a[0]], real_arg(a[1]))
+        elif m == "mctrl":
+            inner = C.make_gate(dict(c=a[0], w=[]))
+            qc.mctrl(inner, [real_arg(x) for x in a[1]], real_arg(a[2]), *(a[3:4]))
+        elif m == "cp":
+            qc.cp(a[0], real_arg(a[1]), real_arg(a[2]))
+        else:
+            getattr(qc, m)(*[real_arg(x) for x in a])
+    elif op in ("qft", "iqft"):
+        getattr(qc, op)([real_arg(x) for x in step["wl"]])
+    elif op == "iadd":
+        qc += plain_qc(step["other"])
+    elif op == "append_circuit":
+        qc.append_circuit(plain_qc(step["other"]), list(step["qubits"]))
+    elif op == "add_qubit":
+        nm = step.get("name")
+        if nm is None:
+            qc.add_qubit()
+        else:
+            qc.add_qubit(real_arg(nm))
+    elif op == "setitem":
+        qc[real_arg(step["key"])] = step["qubit"]
+    elif op == "delitem":
+        del qc[real_arg(step["key"])]
+    elif op == "barrier":
+        if step.get("label") is None:
+            qc.barrier()
+        else:
+            qc.barrier(step["label"])
+    elif op == "rename":
+        qc.name = step["name"]
+    elif op == "add":
+        return qc + plain_qc(step["other"])
+    elif op == "repeat":
+        return qc.repeat(step["k"])
+    elif op == "copy":
+        return qc.copy(vanilla=True) if step.get("vanilla") else qc.copy()
+    elif op == "deepcopy":
+        return _copy.deepcopy(qc)
+    else:
+        raise ValueError(op)
+    return qc
+
+
+# ---- reading an exported object (everything the harness can observe of it), JSON-able
+
+def _clean(msg):
+    import re
+
+    return re.sub(r"0x[0-9a-fA-F]+", "0x..", str(msg))[:200]
+
+
+def try_export(qc, fw, ver, mode):
+    """(object, None) or (None, 'Type: message')"""
+    try:
+        if fw == "qasm" and ver == 2:
+            from qlasskit.qcircuit.exporter_qasm import QasmExporter
+
+            return QasmExporter(version=2).export(qc, mode), None
+        return qc.export(mode, fw), None
+    except Exception as e:  # noqa
+        return None, f"{type(e).__name__}: {_clean(e)}"
+
+
+def read_cirq_gate(g, qubits):
+    import cirq
+
+    out = {}
+    try:
+        out["nq"] = g.num_qubits()
+    except Exception as e:  # noqa
+        out["nq"] = f"error {type(e).__name__}"
+    try:
+        out["ops"] = [repr(o) for o in cirq.decompose_once_with_qubits(g, qubits)]
+    except Exception as e:  # noqa
+        out["ops"] = f"error {type(e).__name__}: {_clean(e)}"
+    return out
+
+
+def snap(fw, mode, obj, err, n):
+    """reading of an exported object; `n` = number of qubits of the circuit when it was exported"""
+    if err is not None:
+        return dict(error=err)
+    try:
+        if fw == "qasm":
+            return dict(text=obj)
+        if fw == "sympy":
+            from sympy import srepr
+
+            return dict(expr=None if obj is None else srepr(obj))
+        if fw == "qiskit":
+            circ_ = obj if mode == "circuit" else obj.definition
+            ops = []
+            for ins in circ_.data:
+                o = ins.operation
+                ops.append([o.name, [circ_.find_bit(b).index for b in ins.qubits], [C.param_text(p) for p in o.params],
+                            getattr(o, "num_ctrl_qubits", None), getattr(o, "ctrl_state", None),
+                            o.label if o.name == "barrier" else None])
+            if mode == "gate":
+                # to_gate() may reorder instructions on disjoint wires: per-wire projections
+                return dict(name=obj.name, nq=obj.num_qubits, wires=[[o for o in ops if w in o[1]] for w in range(obj.num_qubits)])
+            return dict(nq=obj.num_qubits, ops=ops)
+        if fw == "cirq":
+            import cirq
+
+            if mode == "gate":
+                return dict(cls=getattr(obj, "__name__", None), top=None, gates=[read_cirq_gate(obj(), cirq.LineQubit.range(n))])
+            tops = list(obj.all_operations())
+            return dict(cls=None, top=[[getattr(q, "x", str(q)) for q in op.qubits] for op in tops],
+                        gates=[dict(read_cirq_gate(op.gate, list(op.qubits)), cls=type(op.gate).__name__) for op in tops])
+    except Exception as e:  # noqa
+        return dict(unreadable=f"{type(e).__name__}: {_clean(e)}")
+    raise ValueError(fw)
+
+
+def live_reading(first, final_desc):
+    """what a cirq export object reads as IF it is a live view of its circuit: the gate of a fresh
+    export of the circuit as it is now, decomposed on the qubits the first export was placed on"""
+    import cirq
+
+    obj, err = try_export(plain_qc(final_desc), "cirq", None, first["mode"])
+    if err is not None:
+        return None
+    qs = cirq.LineQubit.range(first["n"])
+    try:
+        if first["mode"] == "gate":
+            return [read_cirq_gate(obj(), qs)]
+        return [dict(read_cirq_gate(op.gate, qs), cls=type(op.gate).__name__) for op in obj.all_operations()]
+    except Exception:  # noqa
+        return None
+
+
+class SeqRun:
+    def __init__(self):
+        self.recs = []      # [dict(qc=real circuit, st=account)]: every circuit object of the sequence, last = current
+        self.firsts = []    # exports taken along the way
+        self.fails = []     # (tag, message, finding ids that could explain it, detail)
+        self.aborted = None
+
+    @property
+    def qc(self):
+        return self.recs[-1]["qc"]
+
+    @property
+    def desc(self):
+        return self.recs[-1]["st"].desc()
+
+
+def expand_steps(steps):
+    out = []
+    for s in steps:
+        if s["op"] == "export_all":
+            out.extend(dict(op="export", fw=fw, ver=ver, mode=mode) for fw, ver, mode in ALL_EXPORTS)
+        else:
+            out.append(s)
+    return out
+
+
+def fresh_differs(rec, fw, ver, mode, obj_err=None):
+    """export of rec's circuit (or the given one) vs export of a fresh circuit with the account's gates and names"""
+    st = rec["st"]
+    obj, err = obj_err if obj_err is not None else try_export(rec["qc"], fw, ver, mode)
+    s = snap(fw, mode, obj, err, st.n)
+    fobj, ferr = try_export(plain_qc(st.desc()), fw, ver, mode)
+    sf = snap(fw, mode, fobj, ferr, st.n)
+    return (s, sf) if s != sf else None
+
+
+def run_steps(case):
+    """take one real circuit through the steps; returns the SeqRun (current circuit + account + failures so far)"""
+    run = SeqRun()
+    if case.get("src"):
+        qc = compile_src(case)
+        d = describe(qc)
+        st = St(d["name"], d["n"], d["qmap"], d["gates"])
+    else:
+        qc = plain_qc(case)
+        st = St(case["name"], case["n"], case["qmap"], case["gates"])
+    run.recs.append(dict(qc=qc, st=st, born=0))
+    for i, step in enumerate(expand_steps(case["steps"]), 1):
+        rec = run.recs[-1]
+        if step["op"] == "export":
+            fw, ver, mode = step["fw"], step.get("ver"), step["mode"]
+            obj, err = try_export(rec["qc"], fw, ver, mode)
+            s = snap(fw, mode, obj, err, rec["st"].n)
+            run.firsts.append(dict(i=i, fw=fw, ver=ver, mode=mode, obj=obj, err=err, snap=s, rec=rec, n=rec["st"].n))
+            diff = fresh_differs(rec, fw, ver, mode, (obj, err))
+            if diff:
+                run.fails.append(("stale", f"step {i}: the {fw}{ver or ''} {mode} export of the circuit as it is after steps 1..{i - 1} differs from the export of a fresh circuit with the same gates and names",
+                                  [], dict(code=diff[0], expected=diff[1], step=i, fw=fw, version=ver, mode=mode)))
+            continue
+        try:
+            nqc = real_step(rec["qc"], step)
+        except Exception as e:  # noqa
+            run.fails.append(("raise", f"step {i} ({step['op']}) raises {type(e).__name__}: {_clean(e)}", [], dict(step=i)))
+            run.aborted = i
+            break
+        nst, fresh_obj = model_step(rec["st"], step)
+        if fresh_obj:
+            if nqc is rec["qc"]:
+                run.fails.append(("state", f"step {i} ({step['op']}) returns the circuit it was called on, not a new one", [], dict(step=i)))
+            run.recs.append(dict(qc=nqc, st=nst, born=i))
+        else:
+            rec["st"] = nst
+    return run
+
+
+def finish_seq(run):
+    """after the ordinary pipeline has exported the current circuit once more: state, first exports, stale exports"""
+    last = len(run.recs) - 1
+    for k, rec in enumerate(run.recs):
+        who = "circuit after the last step" if k == last else f"circuit left behind at step {run.recs[k + 1]['born']}"
+        try:
+            d = describe(rec["qc"])
+        except Exception as e:  # noqa
+            d = dict(unreadable=f"{type(e).__name__}: {e}")
+        exp = rec["st"].desc()
+        if d != exp:
+            run.fails.append(("state", f"{who}: its name / qubits / name map / gates are not what the steps describe", [], dict(code=d, expected=exp)))
+        for fw, ver, mode in ALL_EXPORTS:
+            diff = fresh_differs(rec, fw, ver, mode)
+            if diff:
+                run.fails.append(("stale", f"{who}: its {fw}{ver or ''} {mode} export differs from the export of a fresh circuit with the same gates and names",
+                                  [], dict(code=diff[0], expected=diff[1], fw=fw, version=ver, mode=mode)))
+    for f in run.firsts:
+        now = snap(f["fw"], f["mode"], f["obj"], f["err"], f["n"])
+        if now != f["snap"]:
+            who = []
+            if f["fw"] == "cirq" and "gates" in now and "gates" in f["snap"]:
+                # the class name and the qubits it was placed on are fixed when the object is made;
+                # its number of qubits and its decomposition are what a live view reads anew
+                live = live_reading(f, f["rec"]["st"].desc())
+                fixed = lambda s_: (s_.get("cls"), s_.get("top"), [g.get("cls") for g in s_["gates"]])  # noqa: E731
+                moving = lambda gs: [{k: v for k, v in g.items() if k != "cls"} for g in gs]  # noqa: E731
+                if live is not None and moving(now["gates"]) == moving(live) and fixed(now) == fixed(f["snap"]):
+                    who = [F_LIVE]
+            run.fails.append(("first-changed", f"the object returned by the {f['fw']}{f['ver'] or ''} {f['mode']} export at step {f['i']} no longer reads as it did when it was returned (the circuit was changed afterwards)",
+                              who, dict(code=now, expected=f["snap"], step=f["i"], fw=f["fw"], version=f["ver"], mode=f["mode"])))
+
+
+def judge_seq(ctx, res, rec):
+    case, bucket, run = rec["case"], rec["bucket"], rec["seq"]
+    muts = [s["op"] for s in case["steps"] if not s["op"].startswith("export")]
+    sub = dict(case=case, sequence=True)
+    res.count(sub, nontrivial=bool(muts) and bool(run.firsts), bucket=f"{bucket}/steps")
+    hit, first_v = set(), None
+    for f in run.fails:
+        who = [w for w in f[2] if active(ctx, w)]
+        if who:
+            hit.update(who)
+        elif first_v is None:
+            first_v = f
+    if first_v is not None:
+        det = first_v[3] or {}
+        res.violation(dict(case=case, sequence=first_v[0], **{k: det[k] for k in ("step", "fw", "version", "mode") if k in det}),
+                      first_v[1], code=det.get("code"), expected=det.get("expected"),
+                      all_failures=[x[1] for x in run.fails][:20])
+    for w in hit:
+        res.known(w)
 
 
 # ------------------------------------------------------------------ generators
@@ -1104,6 +1567,194 @@ def compiled_cases(thorough):
     return out
 
 
+def seq_mutators():
+    """every public way of changing a QCircuit (or getting a changed one), as step lists"""
+    T = dict(n=3, gates=[mk("CCX", [0, 1, 2]), mk("X", [1])])
+    T2 = dict(n=2, gates=[mk("CX", [1, 0]), mk("H", [1])])
+    TP = dict(n=3, gates=[mk("CP", [2, 0], 0.25), mk("Barrier", []), mk("CZ", [1, 2])])
+    S = lambda nm: {"sym": nm}  # noqa: E731
+    out = [
+        ("append", [dict(op="append", g=mk("X", [2]))]),
+        ("append-cp", [dict(op="append", g=mk("CP", [2, 0], 0.25))]),
+        ("append-mcx", [dict(op="append", g=mk("MCX2", [2, 0, 1]))]),
+        ("append-nop", [dict(op="append", g=mk("NopGate", []))]),
+        ("iadd-gate", [dict(op="iadd_gate", g=mk("CX", [1, 2]))]),
+        ("iadd", [dict(op="iadd", other=T)]),
+        ("iadd-small", [dict(op="iadd", other=T2)]),
+        ("iadd-phase", [dict(op="iadd", other=TP)]),
+        ("iadd-empty", [dict(op="iadd", other=dict(n=3, gates=[]))]),
+        ("append_circuit", [dict(op="append_circuit", other=T, qubits=[0, 1, 2])]),
+        ("append_circuit-perm", [dict(op="append_circuit", other=T, qubits=[2, 0, 1])]),
+        ("append_circuit-small", [dict(op="append_circuit", other=T2, qubits=[2, 0])]),
+        ("add_qubit", [dict(op="add_qubit", name=None)]),
+        ("add_qubit-named", [dict(op="add_qubit", name="anc")]),
+        ("add_qubit-sym", [dict(op="add_qubit", name=S("s"))]),
+        ("add_qubit-use", [dict(op="add_qubit", name=None), dict(op="append", g=mk("CX", [0, 3]))]),
+        ("add_qubit-rebinds", [dict(op="add_qubit", name="a")]),
+        ("setitem-alias", [dict(op="setitem", key="z", qubit=0)]),
+        ("setitem-rebind", [dict(op="setitem", key="a", qubit=1)]),
+        ("setitem-sym", [dict(op="setitem", key=S("y"), qubit=2)]),
+        ("delitem", [dict(op="delitem", key="b")]),
+        ("delitem-sym", [dict(op="delitem", key=S("c"))]),
+        ("delitem-setitem", [dict(op="delitem", key="a"), dict(op="setitem", key="a2", qubit=0)]),
+        ("barrier", [dict(op="barrier", label=None)]),
+        ("barrier-label", [dict(op="barrier", label="lab")]),
+        ("rename", [dict(op="rename", name="other")]),
+        ("add", [dict(op="add", other=T)]),
+        ("add-small", [dict(op="add", other=T2)]),
+        ("add-append", [dict(op="add", other=T), dict(op="append", g=mk("H", [2]))]),
+        ("repeat0", [dict(op="repeat", k=0)]),
+        ("repeat1", [dict(op="repeat", k=1)]),
+        ("repeat2", [dict(op="repeat", k=2)]),
+        ("repeat3", [dict(op="repeat", k=3)]),
+        ("copy", [dict(op="copy", vanilla=False)]),
+        ("copy-vanilla", [dict(op="copy", vanilla=True)]),
+        ("deepcopy", [dict(op="deepcopy")]),
+        ("copy-append", [dict(op="copy", vanilla=False), dict(op="append", g=mk("X", [2]))]),
+        ("copy-iadd", [dict(op="copy", vanilla=False), dict(op="iadd", other=T)]),
+        ("deepcopy-iadd", [dict(op="deepcopy"), dict(op="iadd", other=T)]),
+        ("copy-vanilla-iadd", [dict(op="copy", vanilla=True), dict(op="iadd", other=T)]),
+        ("qft", [dict(op="qft", wl=[0, 1, 2])]),
+        ("iqft", [dict(op="iqft", wl=[2, "a"])]),
+    ]
+    for m in ("h", "z", "x", "y", "t", "s"):
+        out.append((f"m-{m}", [dict(op="method", m=m, args=[2])]))
+    out += [
+        ("m-cx", [dict(op="method", m="cx", args=[1, 2])]),
+        ("m-cx-names", [dict(op="method", m="cx", args=["c", "a"])]),
+        ("m-x-sym", [dict(op="method", m="x", args=[S("b")])]),
+        ("m-ccx", [dict(op="method", m="ccx", args=[2, 0, 1])]),
+        ("m-cz", [dict(op="method", m="cz", args=[2, 1])]),
+        ("m-swap", [dict(op="method", m="swap", args=[0, 2])]),
+        ("m-cp", [dict(op="method", m="cp", args=[0.5, 2, 1])]),
+        ("m-mcx", [dict(op="method", m="mcx", args=[[2, "a"], 1])]),
+        ("m-mctrl-z", [dict(op="method", m="mctrl", args=["Z", [0, 2], 1])]),
+        ("m-mctrl-x", [dict(op="method", m="mctrl", args=["X", [1], "c"])]),
+    ]
+    return out
+
+
+def seq_base(label, steps, gates=None):
+    return dict(label=label, name="fun", n=3, qmap=[["a", 0], ["b", 1], ["c", 2]],
+                gates=gates if gates is not None else [mk("H", [0]), mk("CX", [0, 1])], steps=steps)
+
+
+def systematic_sequences():
+    """export (each framework / mode, or all of them) -> every public mutator -> export again"""
+    out = []
+    ALL = [dict(op="export_all")]
+    T = dict(n=3, gates=[mk("CCX", [0, 1, 2]), mk("X", [1])])
+    for nm, st in seq_mutators():
+        out.append(seq_base(f"seq-all-{nm}", ALL + st))
+    # one export only (a cache per framework / mode shows with that export alone), then the three
+    # basic kinds of change: a gate, a composed circuit, a qubit
+    for fw, ver, mode in ALL_EXPORTS:
+        one = [dict(op="export", fw=fw, ver=ver, mode=mode)]
+        tag = f"{fw}{ver or ''}-{mode}"
+        out.append(seq_base(f"seq-{tag}-append", one + [dict(op="append", g=mk("X", [2]))]))
+        out.append(seq_base(f"seq-{tag}-iadd", one + [dict(op="iadd", other=T)]))
+        out.append(seq_base(f"seq-{tag}-add_qubit", one + [dict(op="add_qubit", name=None), dict(op="append", g=mk("CX", [0, 3]))]))
+    # several rounds: export / change / export / change ... (an invalidation by one mutator must
+    # not hide a missing one in the next round)
+    out.append(seq_base("seq-rounds-append-iadd", ALL + [dict(op="append", g=mk("X", [2]))] + ALL + [dict(op="iadd", other=T)]))
+    out.append(seq_base("seq-rounds-iadd-append", ALL + [dict(op="iadd", other=T)] + ALL + [dict(op="append", g=mk("X", [2]))]))
+    out.append(seq_base("seq-rounds-names-iadd", ALL + [dict(op="setitem", key="z", qubit=1)] + ALL + [dict(op="append_circuit", other=T, qubits=[1, 2, 0])] + ALL + [dict(op="add_qubit", name="anc")]))
+    out.append(seq_base("seq-rounds-repeat-append", ALL + [dict(op="repeat", k=2)] + ALL + [dict(op="append", g=mk("H", [1]))] + ALL + [dict(op="add", other=T)]))
+    out.append(seq_base("seq-rounds-copy-chain", ALL + [dict(op="copy", vanilla=False)] + ALL + [dict(op="iadd", other=T)] + ALL + [dict(op="deepcopy")] + [dict(op="barrier", label=None)]))
+    # the same on gates with parameters / barriers (qiskit, QASM) and without any previous export
+    ph = [mk("H", [0]), mk("P", [1], 0.5), mk("Barrier", [], "b0"), mk("CP", [2, 0], 0.25), mk("MCtrlZ2", [0, 1, 2])]
+    out.append(seq_base("seq-phase-iadd", ALL + [dict(op="iadd", other=dict(n=3, gates=ph))], gates=ph))
+    out.append(seq_base("seq-phase-repeat", ALL + [dict(op="repeat", k=2)], gates=ph))
+    out.append(seq_base("seq-phase-append", ALL + [dict(op="method", m="cp", args=[0.75, "c", "a"])], gates=ph))
+    out.append(seq_base("seq-noexport-iadd", [dict(op="iadd", other=T)]))
+    out.append(seq_base("seq-noexport-repeat", [dict(op="repeat", k=2)]))
+    out.append(seq_base("seq-empty-iadd", ALL + [dict(op="iadd", other=T)], gates=[]))
+    # a compiled function's circuit, exported, then extended
+    src = "def g5(a: bool, b: bool, c: bool) -> bool:\n    return (a and b) ^ c"
+    out.append(dict(label="seq-compiled-append", src=src, uncompute=True, opt="default", steps=ALL + [dict(op="method", m="x", args=["a"])]))
+    out.append(dict(label="seq-compiled-iadd", src=src, uncompute=True, opt="default", steps=ALL + [dict(op="iadd", other=dict(n=2, gates=[mk("CX", [0, 1])]))]))
+    return [(c, "sequence") for c in out]
+
+
+def random_sequence(rng, k):
+    """random circuit, random exports, random mutators"""
+    case, _ = random_case(rng, 3 * k + rng.randrange(3))
+    case["label"] = f"seq-rnd-{k}"
+    st = St(case["name"], case["n"], case["qmap"], case["gates"])
+    steps = []
+
+    def exports():
+        if rng.random() < 0.5:
+            return [dict(op="export_all")]
+        picks = rng.sample(ALL_EXPORTS, rng.randint(1, 3))
+        return [dict(op="export", fw=fw, ver=ver, mode=mode) for fw, ver, mode in picks]
+
+    def other(n):
+        m = rng.randint(1, n)
+        gs = [canon_gate(d) for d in C.rand_circuit(rng, m, rng.randint(0, 4))]
+        return dict(n=m, gates=gs)
+
+    steps += exports()
+    for _ in range(rng.randint(1, 5)):
+        n = st.n
+        names = [kv[0] for kv in st.qmap]
+        kind = rng.choice(["append", "append", "iadd_gate", "method", "iadd", "iadd", "append_circuit", "append_circuit", "add_qubit",
+                           "setitem", "delitem", "barrier", "rename", "add", "repeat", "copy", "deepcopy", "qft"])
+        if kind in ("append", "iadd_gate"):
+            g = canon_gate(C.rand_gate(rng, n))
+            step = dict(op=kind, g=g)
+        elif kind == "method":
+            m = rng.choice(["h", "z", "x", "y", "t", "s"] + (["cx", "cz", "swap", "cp"] if n >= 2 else []) + (["ccx", "mcx"] if n >= 3 else []))
+            ar = {"cx": 2, "cz": 2, "swap": 2, "cp": 2, "ccx": 3, "mcx": 3}.get(m, 1)
+            ws = rng.sample(range(n), ar)
+            byname = {}
+            for kk, v in st.qmap:
+                byname.setdefault(v, kk)
+            args = [(byname[w] if w in byname and st.wire(byname[w]) == w and rng.random() < 0.4 else w) for w in ws]
+            if m == "cp":
+                args = [rng.choice([0.5, 0.25, -1.5, math.pi / 4, rng.uniform(-3, 3)])] + args
+            elif m == "mcx":
+                args = [args[:-1], args[-1]]
+            step = dict(op="method", m=m, args=args)
+        elif kind == "iadd":
+            step = dict(op="iadd", other=other(n))
+        elif kind == "append_circuit":
+            o = other(n)
+            step = dict(op="append_circuit", other=o, qubits=rng.sample(range(n), o["n"]))
+        elif kind == "add_qubit":
+            step = dict(op="add_qubit", name=rng.choice([None, f"anc{len(steps)}", {"sym": f"s{len(steps)}"}]))
+        elif kind == "setitem":
+            step = dict(op="setitem", key=rng.choice(names + [f"n{len(steps)}", {"sym": f"y{len(steps)}"}]), qubit=rng.randrange(n))
+        elif kind == "delitem":
+            if not names:
+                continue
+            step = dict(op="delitem", key=rng.choice(names))
+        elif kind == "barrier":
+            step = dict(op="barrier", label=rng.choice([None, "lab"]))
+        elif kind == "rename":
+            step = dict(op="rename", name=rng.choice(["qc", "other", "g2", "fun_1"]))
+        elif kind == "add":
+            step = dict(op="add", other=other(n))
+        elif kind == "repeat":
+            if len(st.gates) > 12:
+                continue
+            step = dict(op="repeat", k=rng.randint(0, 3))
+        elif kind == "copy":
+            step = dict(op="copy", vanilla=rng.random() < 0.3)
+        elif kind == "deepcopy":
+            step = dict(op="deepcopy")
+        else:
+            if n < 2:
+                continue
+            step = dict(op=rng.choice(["qft", "iqft"]), wl=rng.sample(range(n), rng.randint(1, min(n, 3))))
+        st, _new = model_step(st, step)
+        steps.append(step)
+        if rng.random() < 0.5:
+            steps += exports()
+    case["steps"] = steps
+    return case, "sequence-random"
+
+
 def random_case(rng, k):
     n = rng.randint(1, 6) if k % 5 else rng.randint(1, 3)
     length = rng.randint(1, 12)
@@ -1164,10 +1815,13 @@ def run(ctx: Ctx) -> Result:
         "harness-side readers of the exported objects (QuantumCircuit.data, cirq.decompose_once, sympy Mul.args, the line reader of the QASM text)",
     ]
     env_note(res)
-    cases = systematic_cases() + compiled_cases(ctx.thorough)
+    cases = systematic_cases() + systematic_sequences() + compiled_cases(ctx.thorough)
     n_rand = 6000 if ctx.thorough else 300
     for k in range(n_rand):
         cases.append(random_case(ctx.rng, k))
+    # after the plain random circuits, so that those are the same as before for a given seed
+    for k in range(800 if ctx.thorough else 40):
+        cases.append(random_sequence(ctx.rng, k))
     check_circuits(ctx, res, cases)
     fmt_cases(ctx, res, 3000 if ctx.thorough else 300)
     return res
@@ -1179,6 +1833,10 @@ def witness_fails(ctx: Ctx, f):
     case = w.get("case")
     if not case:
         return None
+    if case.get("steps"):
+        run = run_steps(case)
+        finish_seq(run)
+        return any(f["id"] in x[2] for x in run.fails)
     qc = build_real(case)
     desc = describe(qc)
     obs, fails = evaluate(desc, qc, w["fw"], w.get("version"), w["mode"], desc["n"] <= 6)
